@@ -2,7 +2,7 @@
     module texts, loads them with parser.LoadModuleFromString and reads the schema back through the
     public accessors; everything below is evaluated by Coq. *)
 From Coq Require Import List Bool Arith Strings.Byte.
-From YV Require Import Base.Verdict YLex.Keywords YLex.Model YLex.Spec.
+From YV Require Import Base.Verdict YLex.Keywords YLex.Model YLex.Spec Meta.Slices.
 Import ListNotations.
 
 Fixpoint bytes_eqb (a b : list byte) : bool :=
@@ -36,12 +36,32 @@ Inductive case :=
 (** (S) one property of one statement of a generated statement tree: [kind] 0: read back must equal
     what was written; 1: status; 2: extension on a secondary keyword (description "d" { p:e "x"; }) *)
 | CRead (kind : nat) (written read : list (list byte))
+(** kind 3: the when conditions that apply to a node that came out of a grouping: [written] = its own
+    when, the when of the uses statement that copied it, the when of the uses statements around that
+    one (innermost first; empty = not written); [read] = what When() gives (nothing or one) *)
 (** determinism: canonical dumps of [n] loads of one text were all equal *)
 | CDet (n : nat) (all_equal : bool)
 (** successive loads in one process: a text was loaded and dumped, then [others] other texts were
     loaded; [reread]: the schema compiled first, read again, still gives that dump; [reload]: the
     first text loaded again gives that dump *)
-| CInter (others : nat) (reread reload : bool).
+| CInter (others : nat) (reread reload : bool)
+(** (G) slice-valued fields through grouping expansion, refine and deviation (harness/props/c06g.go).
+    [tbl]: the entries (musts, uniques, revisions) that occur, [prog]: what the module text makes the
+    loader do to the numbered objects (entries by their index in [tbl]), [n]: number of objects,
+    [o]: what was read back from objects 0..n-1 through the accessors (indexes into [tbl]), or
+    [None] when the load failed *)
+| CGroup (tbl : list cell) (prog : list iop) (n : nat) (o : option (list (list nat)))
+(** a sequence of calls of Module.Revision / RevisionHistory / Revisions on a module whose revision
+    statements are [revs] in textual order, with the answers *)
+| CRevAcc (revs : list cell) (calls : list racc) (answers : list (list cell))
+(** every exported accessor without arguments of every object reachable from the module was called
+    ([calls] calls); [same]: everything read before is read again unchanged *)
+| CSweep (calls : nat) (same : bool)
+
+with iop :=
+| IAppend (o : nat) (x : nat)
+| IClone (src dst : nat)
+| IDelete (o : nat) (x : nat) (as_set : bool).
 
 (** well-formedness the lexical model relies on, without the two conditions that delimit known
     findings (indentation stripping, Unicode white space in unquoted strings) *)
@@ -105,6 +125,14 @@ Definition kf_ext2 := 6.        (* an extension inside a secondary keyword's blo
 Definition kf_ext_num := 7.     (* unquoted extension argument starting with a digit or sign is lexed as a number
                                    followed by a string: syntax error *)
 
+Definition kf_when := 8.        (* the when of a uses statement replaces the when of the grouping's node *)
+
+Definition nonempty (t : list byte) : bool := match t with [] => false | _ => true end.
+(** resolver.cloneDefs: [if when != nil { copy[i].setWhen(when) }] on every top-level copy, the copies
+    of nested uses statements included: the outermost when that is written is the one that stays *)
+Definition when_model (w : list (list byte)) : list (list byte) :=
+  match rev (filter nonempty w) with x :: _ => [x] | [] => [] end.
+
 Definition starts_numeric (a : arg) : bool :=
   match a_first a, a_more a with
   | PUq (b :: _), [] => ascii_digit b || Byte.eqb b x2b || Byte.eqb b x2d
@@ -118,6 +146,32 @@ Definition arg_region (mode : nat) (a : arg) : option nat :=
   else if Nat.eqb mode 2 && starts_numeric a then Some kf_ext_num
   else if arg_strips a then Some kf_strip
   else None.
+
+(** (G) *)
+Definition to_op (tbl : list cell) (p : iop) : op :=
+  match p with
+  | IAppend o x => OAppend o (nth x tbl [])
+  | IClone a b => OClone a b
+  | IDelete o x m => ODelete o (nth x tbl []) m
+  end.
+Fixpoint cells_eqb (a b : list cell) : bool :=
+  match a, b with
+  | [], [] => true
+  | x :: a', y :: b' => lists_eqb x y && cells_eqb a' b'
+  | _, _ => false
+  end.
+Fixpoint cellss_eqb (a b : list (list cell)) : bool :=
+  match a, b with
+  | [], [] => true
+  | x :: a', y :: b' => cells_eqb x y && cellss_eqb a' b'
+  | _, _ => false
+  end.
+Definition readback_eqb (a b : option (list (list cell))) : bool :=
+  match a, b with
+  | Some x, Some y => cellss_eqb x y
+  | None, None => true
+  | _, _ => false
+  end.
 
 Definition is_semi_or_open (b : byte) : bool := Byte.eqb b c_semi || Byte.eqb b c_lb.
 
@@ -135,10 +189,19 @@ Definition classify (c : case) : verdict :=
     let model := match kind with
                  | 1 => [current]
                  | 2 => written ++ written
+                 | 3 => when_model written
                  | _ => written
                  end in
-    classify_gen (lists_eqb model read) (lists_eqb written read)
-                 (match kind with 1 => Some kf_status | 2 => Some kf_ext2 | _ => None end)
+    let want := match kind with 3 => filter nonempty written | _ => written end in
+    classify_gen (lists_eqb model read) (lists_eqb want read)
+                 (match kind with 1 => Some kf_status | 2 => Some kf_ext2 | 3 => Some kf_when | _ => None end)
   | CDet n all_equal => classify_gen all_equal all_equal None
   | CInter _ reread reload => classify_gen (reread && reload) (reread && reload) None
+  | CGroup tbl prog n o =>
+    let p := map (to_op tbl) prog in
+    let obs := option_map (map (map (fun i => nth i tbl []))) o in
+    classify_gen (readback_eqb (load_and_read true p n) obs) (readback_eqb (spec_read p n) obs) None
+  | CRevAcc revs calls answers =>
+    classify_gen (cellss_eqb (racc_run revs calls) answers) (cellss_eqb (map (racc_spec revs) calls) answers) None
+  | CSweep _ same => classify_gen same same None
   end.
